@@ -48,10 +48,13 @@ class LWorld(PWorld):
     def __init__(self, facts):
         super().__init__(facts)
         self.max_calls = 20000
+        self.quiet = True
+        self.warnings = 0
+        self.gms = None
 
     def allow(self, body, c):
         f = body['file']
-        return super().allow(body, c) or f.endswith(('XSLT/Stylesheet.cpp', 'XSLT/Stylesheet.hpp'))
+        return super().allow(body, c) or f.endswith(('XSLT/Stylesheet.cpp', 'XSLT/Stylesheet.hpp', 'XSLT/XalanMatchPatternData.hpp', 'XSLT/XalanMatchPatternData.cpp'))
 
     def destructor(self, o):
         return None
@@ -72,23 +75,38 @@ class LWorld(PWorld):
                 if n == 'end':
                     return It(tgt.pairs, len(tgt.pairs.items))
                 raise Unsupported('map method ' + n)
-            if isinstance(tgt, Obj) and tgt.cls == 'entry':
-                if n == 'getPriorityOrDefault':
-                    return tgt.fields['priority']
-                if n == 'getPosition':
-                    return tgt.fields['position']
-                if n == 'getTemplate':
-                    return tgt.fields['template']
             if isinstance(tgt, Obj) and tgt.cls == 'template':
                 if n == 'getMatchPattern':
                     return tgt.fields['xpath']
+                if n == 'getPriority':
+                    return tgt.fields['priority']
+                if n == 'getMode':
+                    return tgt.fields['mode']
+                if n == 'getLocator':
+                    return 0
+            if isinstance(tgt, Obj) and tgt.cls == 'qname':
+                if n == 'isEmpty':
+                    return int(tgt.fields['name'] == '')
+                if n == 'equals':
+                    o = m.ev(c['args'][0])
+                    return int(isinstance(o, Obj) and o.cls == 'qname' and o.fields['name'] == tgt.fields['name'])
+            if tgt == 'ECTX' and n == 'getQuietConflictWarnings':
+                return int(self.quiet)
+            if tgt == 'ECTX' and n == 'problem':
+                self.warnings += 1
+                return 0
+            if n == 'getMatchScore' and len(c.get('args', [])) == 3 and isinstance(tgt, Obj) and tgt.cls.endswith('XPath'):
+                nd = m.ev(c['args'][0])
+                sub = OMachine(self, {}, tgt)
+                sub.fuel = 20000
+                return sub.run_body(self.gms, [nd, 'ECTX'], tgt)
             if tgt == 'CCTX' and n == 'createXalanMatchPatternData':
                 a = [m.ev(x) for x in c['args']]
                 if len(a) != 6:
                     raise Unsupported('createXalanMatchPatternData with %d arguments' % len(a))
-                return Obj('entry', {'template': a[0], 'position': a[1], 'target': a[2], 'xpath': a[3], 'pattern': a[4], 'priority': a[5]})
+                return Obj(NS + 'XalanMatchPatternData', {'m_template': a[0], 'm_position': a[1], 'm_targetString': a[2], 'm_matchPattern': a[3], 'm_pattern': a[4], 'm_priority': a[5]})
             if n == 'getCurrentPattern':
-                return 'PATTERN'
+                return m.target_obj(c).fields.get('m_currentPattern') or 'PATTERN'
             if isinstance(tgt, Obj) and tgt.cls.endswith('TargetData') and n == 'getString' and isinstance(tgt.fields.get('m_string'), Tok):
                 return tgt.fields['m_string'].s
         if k == 'OpCall' and c.get('op') == '[]' and len(c['args']) == 2:
@@ -100,8 +118,12 @@ class LWorld(PWorld):
             if isinstance(v, (str, Tok)):
                 m.assign(strip_casts(c['args'][0]), v.s if isinstance(v, Tok) else v)
                 return v
-        if k == 'Call' and n == 'getMatchScoreValue':
-            return NotImplemented
+        if k == 'Call' and n == 'isNegativeInfinity':
+            return int(m.ev(c['args'][0]) == float('-inf'))
+        if k == 'Call' and n == 'getNegativeInfinity':
+            return float('-inf')
+        if k == 'Call' and n == 'getPositiveInfinity':
+            return float('inf')
         return super().hook(m, c)
 
 
@@ -171,62 +193,70 @@ def alt_split(toks):
     return out
 
 
-def run_rule(res, facts, tier, rid='C10-R11'):
-    r = res.rule(rid, 'the look-up tables offer every rule whose pattern matches: parser, XPath::getTargetData, the filing loop of Stylesheet::addTemplate with addToList, '
-                 'addToTable (postConstruction) and locateMatchPatternDataList interpreted end to end for a corpus of patterns and unions next to rules named a and @x; '
-                 'whenever a node matches the pattern by XSLT 1.0 5.2 the list consulted for that node holds an entry of the rule', floor=3000)
-    w = LWorld(facts)
+class Pipeline:
+    """the interpreted chain: compile a pattern, getTargetData, file it (addTemplate's loop), merge (addToTable), look a node up"""
 
-    def one(name, pred=lambda a: True):
-        c = [a for a in facts.asts(name, must=False) if a.get('body') is not None and pred(a)]
-        if len(c) != 1:
-            raise AnalysisBroken('%s: %d bodies' % (name, len(c)))
-        return c[0]
-    init = one('XPathProcessorImpl::initMatchPattern')
-    gtd = one('XPath::getTargetData')
-    add = one('Stylesheet::addTemplate')
-    locate = one('Stylesheet::locateMatchPatternDataList')
-    post = one('Stylesheet::postConstruction')
-    a2t = [a for a in facts.asts('addToTable', must=False) if a.get('body') is not None and a['file'].endswith('XSLT/Stylesheet.cpp')]
-    if len(a2t) != 1:
-        raise AnalysisBroken('addToTable: %d bodies' % len(a2t))
-    a2t = a2t[0]
-    # postConstruction merges the wildcard lists into both tables
-    merged = set()
-    for c in calls(post['body']):
-        if (c.get('n') or callee(c).split('::')[-1]) == 'addToTable' and len(c.get('args', [])) == 2:
-            t, l = strip_casts(c['args'][0]), strip_casts(c['args'][1])
-            merged.add((t.get('m'), l.get('m')))
-    for pair in (('m_elementPatternTable', 'm_elementAnyPatternList'), ('m_attributePatternTable', 'm_attributeAnyPatternList')):
-        if pair in merged:
-            r.ok('postConstruction merges %s into %s' % (pair[1], pair[0]))
-        else:
-            r.violation('postConstruction: %s' % pair[0], 'the wildcard list %s is not merged into the per-name table: rules with wildcard patterns are lost for named nodes' % pair[1],
-                        common.file_line(post))
-    # the filing loop of addTemplate
-    loop = None
-    for x in walk(add['body']):
-        if x.get('k') == 'For' and any((c.get('n') or '') == 'createXalanMatchPatternData' for c in calls(x)):
-            loop = x
-    if loop is None:
-        raise AnalysisBroken('addTemplate: the loop over the target data is gone')
-    locals_ = {}
-    for x in walk(add['body']):
-        if x.get('k') == 'Decl':
-            for v in x.get('vars', []):
-                locals_[v['n']] = v['id']
-    for need in ('data', 'nTargets', 'tempString', 'xp'):
-        if need not in locals_:
-            raise AnalysisBroken('addTemplate: local %s is gone' % need)
-    T = {k2: facts.enumconst.get(NS + 'XalanNode::' + v) for k2, v in (('elem', 'ELEMENT_NODE'), ('attr', 'ATTRIBUTE_NODE'), ('text', 'TEXT_NODE'), ('doc', 'DOCUMENT_NODE'), ('comment', 'COMMENT_NODE'),
-                                                                              ('pi', 'PROCESSING_INSTRUCTION_NODE'))}
-    if None in T.values():
-        raise AnalysisBroken('node type constants not found')
-    doc, nodes = big_tree()
-    w.doc = doc
+    def __init__(self, facts, r=None):
+        self.facts = facts
+        w = self.w = LWorld(facts)
+
+        def one(name, pred=lambda a: True):
+            c = [a for a in facts.asts(name, must=False) if a.get('body') is not None and pred(a)]
+            if len(c) != 1:
+                raise AnalysisBroken('%s: %d bodies' % (name, len(c)))
+            return c[0]
+        self.one = one
+        self.init = one('XPathProcessorImpl::initMatchPattern')
+        self.gtd = one('XPath::getTargetData')
+        self.add = add = one('Stylesheet::addTemplate')
+        self.locate = one('Stylesheet::locateMatchPatternDataList')
+        self.post = post = one('Stylesheet::postConstruction')
+        w.gms = one('XPath::getMatchScore', lambda a: len(a['params']) == 2)
+        a2t = [a for a in facts.asts('addToTable', must=False) if a.get('body') is not None and a['file'].endswith('XSLT/Stylesheet.cpp')]
+        if len(a2t) != 1:
+            raise AnalysisBroken('addToTable: %d bodies' % len(a2t))
+        self.a2t = a2t[0]
+        # postConstruction merges the wildcard lists into both tables
+        merged = set()
+        for c in calls(post['body']):
+            if (c.get('n') or callee(c).split('::')[-1]) == 'addToTable' and len(c.get('args', [])) == 2:
+                t, l = strip_casts(c['args'][0]), strip_casts(c['args'][1])
+                merged.add((t.get('m'), l.get('m')))
+        for pair in (('m_elementPatternTable', 'm_elementAnyPatternList'), ('m_attributePatternTable', 'm_attributeAnyPatternList')):
+            if r is None:
+                continue
+            if pair in merged:
+                r.ok('postConstruction merges %s into %s' % (pair[1], pair[0]))
+            else:
+                r.violation('postConstruction: %s' % pair[0], 'the wildcard list %s is not merged into the per-name table: rules with wildcard patterns are lost for named nodes' % pair[1],
+                            common.file_line(post))
+        # the filing loop of addTemplate
+        loop = None
+        for x in walk(add['body']):
+            if x.get('k') == 'For' and any((c.get('n') or '') == 'createXalanMatchPatternData' for c in calls(x)):
+                loop = x
+        if loop is None:
+            raise AnalysisBroken('addTemplate: the loop over the target data is gone')
+        self.loop = loop
+        self.locals_ = {}
+        for x in walk(add['body']):
+            if x.get('k') == 'Decl':
+                for v in x.get('vars', []):
+                    self.locals_[v['n']] = v['id']
+        for need in ('data', 'nTargets', 'tempString', 'xp'):
+            if need not in self.locals_:
+                raise AnalysisBroken('addTemplate: local %s is gone' % need)
+        self.T = {k2: facts.enumconst.get(NS + 'XalanNode::' + v) for k2, v in (('elem', 'ELEMENT_NODE'), ('attr', 'ATTRIBUTE_NODE'), ('text', 'TEXT_NODE'), ('doc', 'DOCUMENT_NODE'),
+                                                                                 ('comment', 'COMMENT_NODE'), ('pi', 'PROCESSING_INSTRUCTION_NODE'))}
+        if None in self.T.values():
+            raise AnalysisBroken('node type constants not found')
+        self.doc, self.nodes = big_tree()
+        w.doc = self.doc
+
     LISTS = ('m_textPatternList', 'm_commentPatternList', 'm_piPatternList', 'm_rootPatternList', 'm_nodePatternList', 'm_elementAnyPatternList', 'm_attributeAnyPatternList')
 
-    def compile_(toks):
+    def compile_(self, toks):
+        w = self.w
         expr = Obj(NS + 'XPathExpression', {'m_opMap': Vec([], 'ops'), 'm_lastOpCodeIndex': 0, 'm_tokenQueue': Vec([Tok(t) for t in toks], 'tokens'), 'm_currentPosition': 0,
                                             'm_currentPattern': '', 'm_numberLiteralValues': Vec([])})
         xp = Obj(NS + 'XPath', {'m_expression': expr, 'm_locator': 0, 'm_inStylesheet': 1})
@@ -237,31 +267,54 @@ def run_rule(res, facts, tier, rid='C10-R11'):
         w.pending = list(toks)
         m = OMachine(w, {}, parser)
         m.fuel = 20000
-        m.run_body(init, [xp, 'CCTX', ' '.join(toks), 'RES', 0, 1, 1], parser)
+        m.run_body(self.init, [xp, 'CCTX', ' '.join(toks), 'RES', 0, 1, 1], parser)
         return xp
 
-    def file_rule(sheet, name, toks):
-        xp = compile_(toks)
-        tmpl = Obj('template', {'name': name, 'xpath': xp})
+    def file_rule(self, sheet, name, toks, priority=float('-inf'), mode=''):
+        w = self.w
+        xp = self.compile_(toks)
+        xp.fields['m_expression'].fields['m_currentPattern'] = ''.join(toks)
+        tmpl = Obj('template', {'name': name, 'xpath': xp, 'priority': priority, 'mode': Obj('qname', {'name': mode})})
         data = Vec([])
         w.calls = 0
         m = OMachine(w, {}, xp)
         m.fuel = 20000
-        m.run_body(gtd, [data], xp)
-        env = {locals_['data']: data, locals_['nTargets']: len(data.items), locals_['tempString']: '', locals_['xp']: xp}
-        for p in add['params']:
+        m.run_body(self.gtd, [data], xp)
+        L = self.locals_
+        env = {L['data']: data, L['nTargets']: len(data.items), L['tempString']: '', L['xp']: xp}
+        for p in self.add['params']:
             env[p['id']] = tmpl if 'ElemTemplate' in (p.get('ty') or '') else 'CCTX'
         w.calls = 0
         m2 = OMachine(w, env, sheet)
         m2.fuel = 20000
-        m2.exec(loop)
+        m2.exec(self.loop)
         return tmpl, data
 
-    def new_sheet():
-        f = {k2: Vec([]) for k2 in LISTS}
-        f.update({'m_elementPatternTable': PMap(), 'm_attributePatternTable': PMap(), 'm_patternCount': 0})
+    def new_sheet(self):
+        f = {k2: Vec([]) for k2 in self.LISTS}
+        f.update({'m_elementPatternTable': PMap(), 'm_attributePatternTable': PMap(), 'm_patternCount': 0, 'm_isWrapperless': 0, 'm_firstTemplate': 0, 'm_imports': Vec([]),
+                  'm_importsSize': 0})
         return Obj(NS + 'Stylesheet', f)
 
+    def finish_sheet(self, sheet):
+        """what postConstruction does to the tables"""
+        w = self.w
+        for tab, lst in (('m_elementPatternTable', 'm_elementAnyPatternList'), ('m_attributePatternTable', 'm_attributeAnyPatternList')):
+            w.calls = 0
+            m3 = OMachine(w, {}, None)
+            m3.fuel = 20000
+            m3.run_body(self.a2t, [sheet.fields[tab], sheet.fields[lst]], None)
+        sheet.fields['m_elementPatternTableEnd'] = It(sheet.fields['m_elementPatternTable'].pairs, len(sheet.fields['m_elementPatternTable'].pairs.items))
+        sheet.fields['m_attributePatternTableEnd'] = It(sheet.fields['m_attributePatternTable'].pairs, len(sheet.fields['m_attributePatternTable'].pairs.items))
+
+
+def run_rule(res, facts, tier, rid='C10-R11'):
+    r = res.rule(rid, 'the look-up tables offer every rule whose pattern matches: parser, XPath::getTargetData, the filing loop of Stylesheet::addTemplate with addToList, '
+                 'addToTable (postConstruction) and locateMatchPatternDataList interpreted end to end for a corpus of patterns and unions next to rules named a and @x; '
+                 'whenever a node matches the pattern by XSLT 1.0 5.2 the list consulted for that node holds an entry of the rule', floor=3000)
+    P = Pipeline(facts, r)
+    w, add, loop, locate, nodes, T = P.w, P.add, P.loop, P.locate, P.nodes, P.T
+    file_rule, new_sheet = P.file_rule, P.new_sheet
     pats, unions = corpus(tier)
     seen = set()
     found = {}
@@ -275,13 +328,7 @@ def run_rule(res, facts, tier, rid='C10-R11'):
             file_rule(sheet, 'named-a', ['a'])
             file_rule(sheet, 'named-x', ['@', 'x'])
             tmpl, data = file_rule(sheet, 'P', toks)
-            for tab, lst in (('m_elementPatternTable', 'm_elementAnyPatternList'), ('m_attributePatternTable', 'm_attributeAnyPatternList')):
-                w.calls = 0
-                m3 = OMachine(w, {}, None)
-                m3.fuel = 20000
-                m3.run_body(a2t, [sheet.fields[tab], sheet.fields[lst]], None)
-            sheet.fields['m_elementPatternTableEnd'] = It(sheet.fields['m_elementPatternTable'].pairs, len(sheet.fields['m_elementPatternTable'].pairs.items))
-            sheet.fields['m_attributePatternTableEnd'] = It(sheet.fields['m_attributePatternTable'].pairs, len(sheet.fields['m_attributePatternTable'].pairs.items))
+            P.finish_sheet(sheet)
         except Reject as x:
             raise AnalysisBroken('the pattern parser rejects the valid pattern "%s" (%s)' % (ptxt, x))
         except Fault as f:
@@ -304,7 +351,7 @@ def run_rule(res, facts, tier, rid='C10-R11'):
                 lst = lst.vec
             if not isinstance(lst, Vec):
                 raise AnalysisBroken('look-up for %s yields %r, not a list' % (nd.name, lst))
-            offered = any(isinstance(e, Obj) and e.cls == 'entry' and e.fields['template'] is tmpl for e in lst.items)
+            offered = any(isinstance(e, Obj) and e.cls.endswith('XalanMatchPatternData') and e.fields['m_template'] is tmpl for e in lst.items)
             r.instances += 1
             if want and not offered:
                 last = alts[[ref_match(a, nd) for a in alts].index(True)]
@@ -336,3 +383,97 @@ def split_last(toks):
 
 def run_c09_rule(res, facts, tier):
     return run_rule(res, facts, tier, 'C09-R10')
+
+
+# ------------------------------------------------------------------------------------------------------------------ C10-R12: the choice itself
+POOL = [(['a'], 0.0), (['b'], 0.0), (['*'], -0.5), (['a', '/', 'b'], 0.5), (['*', '/', 'a'], 0.5), (['@', 'x'], 0.0), (['@', '*'], -0.5), (['node', '(', ')'], -0.5),
+        (['text', '(', ')'], -0.5), (['b', '[', '1', ']'], 0.5), (['/'], 0.5), (['comment', '(', ')'], -0.5)]
+EXPLICIT = (None, -1.0, 0.25)
+
+
+def run_select_rule(res, facts, tier):
+    """Stylesheet::findTemplate, both branches (conflict warnings quiet / reported), interpreted on stylesheets of two or three rules drawn from a pool of single-alternative
+    patterns with default and explicit priorities, plus a rule in another mode; the rule chosen for every node must be the one of XSLT 1.0 5.5: among the rules of the
+    mode whose pattern matches, the highest priority, then the last one; none -> no rule (built-in)."""
+    r = res.rule('C10-R12', 'the choice end to end: Stylesheet::findTemplate (quiet and conflict-reporting branch) interpreted over look-up tables built by the interpreted filing chain '
+                 'for stylesheets of two or three rules (pool of patterns x default / explicit priorities, one rule in another mode), with the interpreted matcher: for every node '
+                 'the rule returned is the one XSLT 1.0 5.5 prescribes (mode, then priority, then last), or none', floor=3000)
+    P = Pipeline(facts)
+    w = P.w
+    find = P.one('Stylesheet::findTemplate', lambda a: len(a['params']) == 5)
+    ftii = P.one('Stylesheet::findTemplateInImports')
+    NONE = facts.enumconst.get(NS + 'XPath::eMatchScoreNone')
+    deep = tier == 'thorough'
+    rules1 = [(toks, dflt, ex) for toks, dflt in POOL for ex in EXPLICIT]
+    sheets = []
+    for i, (x, y) in enumerate(itertools.product(rules1, repeat=2)):
+        if deep or i % 2 == 0:
+            sheets.append([x, y])
+    for i, t in enumerate(itertools.product(rules1[::2], repeat=3)):
+        if i % (23 if deep else 211) == 0:
+            sheets.append(list(t))
+    default_mode = Obj('qname', {'name': ''})
+    other_mode = Obj('qname', {'name': 'm'})
+
+    first_elem = next(n for n in P.nodes if n.kind == 'elem')
+
+    def work(part):
+        inst = 0
+        found = {}
+        for sheet_rules in part:
+            label = ' ; '.join('match="%s"%s' % (''.join(t), '' if ex is None else ' priority="%s"' % ex) for t, d, ex in sheet_rules)
+            try:
+                sheet = P.new_sheet()
+                tmpls = []
+                for k, (toks, dflt, ex) in enumerate(sheet_rules):
+                    t, _ = P.file_rule(sheet, 'T%d' % (k + 1), toks, float('-inf') if ex is None else ex)
+                    tmpls.append((t, toks, dflt if ex is None else ex, k))
+                tm, _ = P.file_rule(sheet, 'M', ['*'], float('-inf'), 'm')       # rules of two other modes: never chosen in the default mode, nor in each other's
+                P.file_rule(sheet, 'N', ['*'], float('-inf'), 'n')
+                P.finish_sheet(sheet)
+            except Reject as x:
+                raise AnalysisBroken('the pattern parser rejects a valid pattern of [%s] (%s)' % (label, x))
+            except Fault as f:
+                found.setdefault(('filing', ''), ('filing [%s]' % label, 'the code misbehaves: %s' % f)); continue
+            except Unsupported as u:
+                raise AnalysisBroken('filing outside the interpreted subset on [%s]: %s' % (label, u))
+            for nd in P.nodes:
+                cands = [(prio, k, t) for t, toks, prio, k in tmpls if ref_match(toks, nd)]
+                want = max(cands, key=lambda c: (c[0], c[1]))[2] if cands else None
+                for mode, wantm in ((default_mode, want), (other_mode, tm if nd.kind == 'elem' else None)):
+                    if mode is other_mode and nd is not first_elem and nd.kind == 'elem':
+                        continue
+                    for quiet in (True, False):
+                        w.quiet, w.warnings, w.calls = quiet, 0, 0
+                        try:
+                            m = OMachine(w, {}, sheet)
+                            m.fuel = 30000
+                            got = m.run_body(find, ['ECTX', nd, P.T[nd.kind], mode, 0], sheet)
+                        except Fault as f:
+                            got = 'FAULT: %s' % f
+                        except Unsupported as u:
+                            raise AnalysisBroken('findTemplate outside the interpreted subset on [%s] for %s: %s' % (label, nd.name, u))
+                        inst += 1
+                        if got == 0:
+                            got = None
+                        if got is wantm:
+                            continue
+                        def nm(t):
+                            return 'none (built-in rule)' if t is None else (t if isinstance(t, str) else t.fields['name'])
+                        kind = 'mode' if mode is other_mode or got is tm else ('no rule' if got is None else ('priority' if wantm is not None and got is not None else 'match'))
+                        key = (kind, 'quiet' if quiet else 'reporting')
+                        found.setdefault(key, ('[%s] (T1, T2 ... in document order; then M = match="*" mode="m", N = match="*" mode="n"), node %s, %s, conflict warnings %s' %
+                                               (label, nd.name, 'mode m' if mode is other_mode else 'default mode', 'quiet' if quiet else 'reported'),
+                                               'findTemplate returns %s, XSLT 1.0 5.5 requires %s' % (nm(got), nm(wantm))))
+        return inst, found
+    from ..report import fork_map
+    nparts = 8 if deep else 4
+    found = {}
+    for inst, fnd in fork_map(work, [sheets[i::nparts] for i in range(nparts)]):
+        r.instances += inst
+        for k2, v in fnd.items():
+            found.setdefault(k2, v)
+    for (kind, branch), (site, what) in sorted(found.items()):
+        r.violation('choice (%s, %s branch)' % (kind, branch), '%s: %s' % (site, what), common.file_line(find))
+    r.note('%d stylesheets x %d nodes x 2 branches' % (len(sheets), len(P.nodes)))
+    return r
